@@ -197,6 +197,30 @@ def pool_map(fn, jobs, procs=16):
         return p.map(fn, jobs, chunksize=max(1, len(jobs) // (procs * 8)))
 
 
+_SHARED = None
+
+
+def _call_shared(args):
+    fn, lo, hi = args
+    return [fn(_SHARED[i]) for i in range(lo, hi)]
+
+
+def pool_map_shared(fn, items, procs=16):
+    """like pool_map, but the items reach the workers through fork (no pickling of big records): only index ranges travel"""
+    global _SHARED
+    if not items:
+        return []
+    _SHARED = items
+    n = len(items)
+    step = max(1, n // (procs * 8))
+    try:
+        with mp.get_context("fork").Pool(procs) as p:
+            parts = p.map(_call_shared, [(fn, lo, min(n, lo + step)) for lo in range(0, n, step)], chunksize=1)
+    finally:
+        _SHARED = None
+    return [x for part in parts for x in part]
+
+
 def tlc_family(R, fam, maxn, maxargs):
     try:
         stats, exports, was_cached = cached_family(fam, maxn, maxargs)
